@@ -19,7 +19,7 @@ func init() {
 		Rule: "(in) generated sections of the six table types (all table_id variants, 12..1024+ bytes, alone and in multi-section units, on their PIDs; PMT behind a PAT) under corruption: every single-bit flip of every " +
 			"unit byte (exhaustive per unit), random byte substitutions, bursts ≤ 32 bits, section_length changes, truncation/extension, CRC field overwrites; the demuxer's outcome is compared with the independent " +
 			"reference decoder's accept/reject decision and decoding of the same bytes. (out) Muxer histories with ES descriptors of every supported tag and size that fits one packet (struct Length right/0/wrong) and " +
-			"writePSIData on larger PAT/PMT contents: section_length, CRC_32 and trailing stuffing judged by the reference; every PAT/PMT packet of long Muxer sessions (hundreds of emissions of unchanged tables, stage endurance) decoded as well. distinct = hash of the corrupted unit / output; non-trivial = a corruption was applied or a section emitted",
+			"writePSIData on larger PAT/PMT contents: section_length, CRC_32 and trailing stuffing judged by the reference; valid sections holding the CRC_32 of their own shortened form with the section_length rewritten to it (stage self-similar), checksum fields of all zeros / all ones / complemented / byte-reversed; every PAT/PMT packet of long Muxer sessions (hundreds of emissions of unchanged tables, stage endurance) decoded as well. distinct = hash of the corrupted unit / output; non-trivial = a corruption was applied or a section emitted",
 		Assumptions: []string{"error or nothing is always an acceptable outcome for a corrupted unit; a delivered table must be one the reference accepts from the same bytes, equal field for field and in order",
 			"the reference is refts/psi.go with the bit-serial CRC of refts/crc.go"},
 		Shards: 32,
